@@ -42,7 +42,31 @@ def mutants(prop):
                 exp = os.path.join(cd, f[:-5] + ".expect")
                 keys = [l.strip() for l in open(exp)] if os.path.isfile(exp) else []
                 out.append({"name": "selftest/%s/%s" % (prop, f[:-5]), "patch": os.path.join(cd, f), "expect": [k for k in keys if k]})
+    # behaviour-preserving refactorings (renames, let introduction/inlining, if-let <-> match, added logging, comparison
+    # orientation) produced by independent sub-agents: the rules must stay silent on them. A neutral patch is relevant to a
+    # property when it touches one of the files the property is anchored in.
+    nd = os.path.join(VERIF, "neutral")
+    anchors = set(property_files(prop))
+    if os.path.isdir(nd):
+        for d in sorted(os.listdir(nd)):
+            pp = os.path.join(nd, d, "patch.diff")
+            if not os.path.isfile(pp):
+                continue
+            touched = {l.split(" b/", 1)[1].strip() for l in open(pp) if l.startswith("diff --git ") and " b/" in l}
+            if touched & anchors:
+                out.append({"name": "neutral/" + d, "patch": pp, "expect": [], "neutral": True})
     return out
+
+
+def property_files(prop):
+    try:
+        for l in open(os.path.join(VERIF, "properties.jsonl")):
+            p = json.loads(l)
+            if p.get("id") == prop:
+                return p.get("anchors", {}).get("files", [])
+    except (OSError, ValueError):
+        pass
+    return []
 
 
 def copy_tree(dst):
@@ -85,6 +109,12 @@ def run_one(prop, m):
         ctx = runner.evaluate(prog, prop, "quick")
         fired = sorted({v["key"] for v in ctx.violations})
         res["fired"] = fired[:12]
+        if m.get("neutral"):
+            known = {(k["property"], k["key"]) for k in runner.load_known().get("known", [])}
+            alarms = [k for k in fired if (prop, k) not in known]
+            res["fired"] = alarms[:12]
+            res["status"] = "silent" if not alarms else "FALSE-ALARM(%s)" % "; ".join(a[:80] for a in alarms[:3])
+            return res
         if not fired:
             res["status"] = "MISSED"
         elif m["expect"] and not (set(fired) & set(m["expect"])):
@@ -110,7 +140,7 @@ def main(argv):
         for st in run(p):
             print("SELFTEST %s %s: %s" % (p, st["name"], st["status"]))
             sys.stdout.flush()
-            if st["status"].startswith("MISSED"):
+            if st["status"].startswith("MISSED") or st["status"].startswith("FALSE-ALARM"):
                 bad += 1
     return 1 if bad else 0
 
